@@ -50,12 +50,13 @@ DoOp ==
      \/ n <= 2 /\ Step(OpRec("T", <<>>, 0, 0, "", <<>>), Transpose(cur, Rev([k \in 1..n |-> k])))
      \/ \E i, j \in 1..n : Step(OpRec("swapaxes", <<>>, i, j, "", <<>>), SwapAxes(cur, i, j))
      \/ \E i \in 1..n : \E st \in 0..n : Step(OpRec("rollaxis", <<>>, i, st, "", <<>>), RollAxis(cur, i, st))
-     \/ n < 4 /\ ~HasDim(cur, "n") /\ \E pos \in 0..n : \E vals \in {<<>>, <<10, 12>>} :
+     \/ n < 4 /\ ~HasDim(cur, "n") /\ \E pos \in 0..n : \E vals \in {<<>>, <<10, 12>>, <<10>>} :
            Step(OpRec("newaxis", <<>>, pos, 0, "n", vals), NewAxis(cur, "n", pos, vals))
      \/ \E w \in 0..n : (IF w = 0 THEN TRUE ELSE Len(cur.labs[w]) = 1) /\ Step(OpRec("squeeze", <<>>, w, 0, "", <<>>), Squeeze(cur, w))
-     \/ \E d \in 1..n : Len(cur.labs[d]) = 1 /\ \E byint \in BOOLEAN :
-           Step(OpRec("repeat", <<>>, d, IF byint THEN 1 ELSE 0, "", IF byint THEN <<0, 1>> ELSE <<8, 6>>),
-                Repeat(cur, d, IF byint THEN <<0, 1>> ELSE <<8, 6>>, "i", 0))
+     \/ \E d \in 1..n : Len(cur.labs[d]) = 1 /\ \E byint \in BOOLEAN : \E single \in BOOLEAN :
+           \* (also a "repetition" by one label: the axis is relabelled, nothing is replicated)
+           LET vals == IF byint THEN (IF single THEN <<0>> ELSE <<0, 1>>) ELSE (IF single THEN <<8>> ELSE <<8, 6>>) IN
+           Step(OpRec("repeat", <<>>, d, IF byint THEN 1 ELSE 0, "", vals), Repeat(cur, d, vals, "i", 0))
      \/ n <= 3 /\ \E t \in BcTargets(cur) :
            LET tl == [k \in 1..Len(t) |-> TLabs(cur, t[k])] IN
            Step(BcRec(t, tl), Broadcast(cur, t, [k \in 1..Len(t) |-> "i"], tl, [k \in 1..Len(t) |-> 0]))
